@@ -236,7 +236,7 @@ def obs_number_json(o):
     j = o.get('json')
     if not isinstance(j, dict):
         return None
-    raw = j.get('rawValue') or (j.get('value') or {}).get('rawValue')
+    raw = j.get('rawValue') or (j.get('value') or {}).get('rawValue') or (j.get('raw') or {}).get('rawValue')
     if not raw:
         return None
     v = raw['value']
